@@ -420,6 +420,79 @@ func (m mergeRunner) Run(c *Ctx, i int) CaseResult {
 			}
 		}
 	}
+	if len(filterMerge(m.prop, res.Fails)) == 0 && i%2 == 0 {
+		// the same services as a deployment sees them: every schema rebuilt from the service's answer to the
+		// introspection query (no source positions anywhere, no applied directives). The model is asked about exactly
+		// these schema objects; outcome, content and the comparison between two orders as above.
+		var intro []*ast.Schema
+		for _, sc := range schemas {
+			is, err := IntrospectedSchema(sc)
+			if err != nil {
+				intro = nil
+				break
+			}
+			intro = append(intro, is)
+		}
+		if intro != nil {
+			feat["introspected-sources"] = true
+			res.Features = FeatList(feat)
+			fwd := make([]int, len(intro))
+			rev := make([]int, len(intro))
+			for k := range intro {
+				fwd[k], rev[k] = k, len(intro)-1-k
+			}
+			var firstKind, firstCanon string
+			for oi, order := range [][]int{fwd, rev} {
+				out := buildOrderWith(mc.SDLs, order, mc.GatewayFields, intro...)
+				counters["introspected_constructions"]++
+				counters["introspected_outcome_"+out.Kind]++
+				var ser []interface{}
+				ok := true
+				func() {
+					defer func() {
+						if recover() != nil {
+							ok = false
+						}
+					}()
+					for _, k := range order {
+						ser = append(ser, SerSchema(intro[k]))
+					}
+					ser = append(ser, SerSchema(internal))
+				}()
+				if !ok {
+					break
+				}
+				ans, err := c.Drv.Call(map[string]interface{}{"op": "merge", "schemas": ser})
+				if err != nil {
+					break
+				}
+				modelOK := ans["ok"] != nil
+				switch {
+				case out.Kind == "panic":
+					add("L1.outcome-panic", fmt.Sprintf("gateway.New panicked on services whose schemas were rebuilt from introspection (no source positions), order %v: %s", order, firstLine(out.Err)), map[string]interface{}{"model_ok": modelOK}, out.Err)
+				case modelOK && out.Kind != "ok":
+					add("L1.outcome-rejected", fmt.Sprintf("compatible services (schemas rebuilt from introspection, order %v) are rejected: %s", order, firstLine(out.Err)), "ok", out.Err)
+				case !modelOK && out.Kind == "ok":
+					add("L1.outcome-accepted", fmt.Sprintf("incompatible definitions (%s) are accepted when the schemas were rebuilt from introspection (order %v)", mc.Mutation, order), "error", "ok")
+				case modelOK && Canon(ans["ok"]) != out.Canon:
+					add("L1.content", fmt.Sprintf("merged schema of introspected services differs from the model's union (order %v): %s", order, diffHint(Canon(ans["ok"]), out.Canon)), ans["ok"], out.Canon)
+				}
+				if oi == 0 {
+					firstKind, firstCanon = out.Kind, out.Canon
+				} else if firstKind != out.Kind {
+					add("L0.order-outcome", fmt.Sprintf("with schemas rebuilt from introspection: construction %s for order %v but %s for the reverse", firstKind, fwd, out.Kind), firstKind, out.Kind)
+				} else if out.Kind == "ok" && firstCanon != out.Canon {
+					add("L0.order-content", "with schemas rebuilt from introspection: merged type system differs between an order and its reverse: "+diffHint(firstCanon, out.Canon), firstCanon, out.Canon)
+				}
+				if len(filterMerge(m.prop, res.Fails)) > 0 {
+					break
+				}
+			}
+		} else {
+			counters["introspection_failed"]++
+		}
+		res.Counters = counters
+	}
 	res.Fails = filterMerge(m.prop, res.Fails)
 	if i%29 == 0 || i < len(mergeCorpus) {
 		res.Sample = map[string]interface{}{"mutation": mc.Mutation, "services": len(mc.SDLs), "orders": counters["orders"], "outcomes": counters, "first_service": mc.SDLs[0]}
